@@ -435,6 +435,32 @@ def doc_case(draw):
             feat.add("group-inherited")
         else:
             body.append(leaf())
+    if draw(st.integers(0, 2)) == 0:
+        # twin: the same geometry text once more, with other paint (often unable to paint) - what a verdict
+        # memoised per geometry, or state carried from one shape to the next, would get wrong
+        import copy as _copy
+
+        sites = [(body, i) for i, k in enumerate(body) if k["tag"] != "g"] + [(k["c"], j) for k in body if k["tag"] == "g" for j in range(len(k["c"]))]
+        kids, i = sites[draw(st.integers(0, len(sites) - 1))]
+        twin = _copy.deepcopy(kids[i])
+        how = draw(st.sampled_from(["fresh-paint", "display-none", "opacity-0", "fill-none", "fill-opacity-0"]))
+        if how == "fresh-paint":
+            geo_keys = ("d", "points", "x", "y", "width", "height", "rx", "ry", "cx", "cy", "r", "x1", "y1", "x2", "y2", "transform")
+            twin["a"] = {k: v for k, v in twin["a"].items() if k in geo_keys}
+            twin["s"] = {}
+            p2 = draw(paint(widths=widths))
+            twin["a"].update(p2["a"])
+            twin["s"].update(p2["s"])
+        else:
+            # everything as on the original, one hiding property on top
+            prop, val = {"display-none": ("display", "none"), "opacity-0": ("opacity", "0"), "fill-none": ("fill", "none"), "fill-opacity-0": ("fill-opacity", "0")}[how]
+            twin["s"].pop(prop, None)
+            twin["a"][prop] = val
+            if prop.startswith("fill"):
+                twin["s"].pop("stroke", None)
+                twin["a"]["stroke"] = "none"
+        kids.insert(i + draw(st.integers(0, 1)), twin)
+        feat.add("twin:" + how)
     root = _node("svg", {"viewBox": fr.viewbox()}, c=body)
     op = draw(st.sampled_from(["remove_unpainted_shapes", "remove_unpainted_shapes", "remove_empty_subpaths", "remove_empty_subpaths", "both"]))
     return {"svg": docs.serialize(root, root=True), "op": op, "feat": sorted(feat)}
